@@ -603,13 +603,14 @@ def minimize_lbfgsb(
                 # (before the stop tests: the pairs of the result are built from G)
                 X, G = make_X_and_G_respect_strong_wolfe(X, G, eps_SY, logger=logger)
 
-                # Check stop criterion: minimum relative change in the
-                # objective function
-                if is_f0_min_change_reached(f0, f0_old, ftol, istate):
+                # Check stop criterion: minimum objective function value
+                # (same order as without update function)
+                if is_f0_target_reached(f0 / sf.scaling_factor, _ftarget, istate):
                     break  # the while loop
 
-                # Check stop criterion: minimum objective function value
-                elif is_f0_target_reached(f0 / sf.scaling_factor, _ftarget, istate):
+                # Check stop criterion: minimum relative change in the
+                # objective function
+                elif is_f0_min_change_reached(f0, f0_old, ftol, istate):
                     break  # the while loop
 
             mats = update_lbfgs_matrices(
